@@ -145,3 +145,32 @@ def priority_signature(fn: Function) -> List[Rule]:
 
 def kw_signature(call: ast.Call) -> Tuple[int, Tuple[str, ...]]:
     return len(call.args), tuple(sorted(k.arg or "**" for k in call.keywords))
+
+
+def return_signature(fn: Function, rename: dict) -> List[str]:
+    """Sorted normal forms of the function's return expressions: locals / parameters replaced by their order of first appearance in the
+    function, attribute and string constants mapped through `rename` (e.g. one_of -> X_of) - the idiom of loops and temporaries does not
+    enter, only *what* is returned."""
+    from sa.match import Locals, clone
+
+    L = Locals(fn.node)
+    order: dict = {}
+    for n in ast.walk(fn.node):
+        if isinstance(n, ast.arg):
+            order.setdefault(n.arg, f"v{len(order)}")
+    for n in ast.walk(fn.node):
+        if isinstance(n, ast.Name) and (n.id in L.defs) and isinstance(n.ctx, ast.Store):
+            order.setdefault(n.id, f"v{len(order)}")
+    out = []
+    for r in own_nodes(fn.node):
+        if isinstance(r, ast.Return) and r.value is not None:
+            c = clone(r.value)
+            for x in ast.walk(c):
+                if isinstance(x, ast.Name) and x.id in order:
+                    x.id = order[x.id]
+                elif isinstance(x, ast.Attribute) and x.attr in rename:
+                    x.attr = rename[x.attr]
+                elif isinstance(x, ast.Constant) and isinstance(x.value, str) and x.value in rename:
+                    x.value = rename[x.value]
+            out.append(ast.unparse(c))
+    return sorted(out)
